@@ -98,6 +98,12 @@ def parse_exempt():
     return set(X_RE.findall(m.group(1))) if m else set()
 
 
+def parse_handout():
+    src = lib.strip_comments(open(os.path.join(lib.COQ, "Spec", "C19.v")).read())
+    m = re.search(r"Definition handout_allow .*?:=(.*?)\]\.", src, re.S)
+    return set(re.findall(r'\("([^"]+)", "([^"]+)"\)', m.group(1))) if m else set()
+
+
 def footprint(tb, roots):
     """same walk as Spec/C19.v [expand]: (fn, loc, rw, held incl. inherited); None if a callee is unknown"""
     work = [(r, ()) for r in roots]
@@ -172,6 +178,13 @@ def table_evidence():
         findings.append("package-level variable %s written outside init, in %s (a table shared by all module sets of the process "
                         "is written during processing; for a variable of an imported type such as sync.Map a method call that "
                         "is not known to be read-only counts as a write, race free or not)" % (nm[4:], fn))
+    hand = {(fn, nm) for fn, f in tb.items() for k, nm, rw, h in f["items"] if k == "IAcc" and nm.startswith("handout:")}
+    hallow = parse_handout()
+    for fn, nm in sorted(hand - hallow):
+        findings.append("%s returns a pointer to the package-level object %s: the process-wide object ends up in the data of a "
+                        "module set, a write through it is seen by every other set of the process" % (fn, nm[12:]))
+    for fn, nm in sorted(hallow - hand):
+        findings.append("hand-out allow-list entry not found in the table any more: %s / %s" % (fn, nm))
     exempt = parse_exempt()
     for g in GUARDED:
         rows = [(fn, rw, h) for fn, f in tb.items() for k, nm, rw, h in f["items"] if k == "IAcc" and nm == g
@@ -193,6 +206,7 @@ def table_evidence():
         path_cuts=["%s: only the part before its first call of %s" % (k, " / ".join(v)) for k, v in CUTS.items()],
         write_sites_on_read_paths=["%s writes %s holding %s" % (fn, loc, list(h) or "nothing") for fn, loc, h in writes],
         allow_list=["%s / %s holding %s : %s" % (fn, loc, list(h) or "nothing", why) for fn, loc, h, why in allow],
+        package_objects_handed_out=["%s returns %s (allowed: identity sentinel)" % x for x in sorted(hand)],
         guarded_maps=GUARDED,
         guarded_exempt=["%s reads/writes %s (%s) without a mutex: private object, see Spec/C19.v" % (fn, loc, rw)
                         for fn, loc, rw in sorted(parse_exempt())],
